@@ -102,12 +102,17 @@ macro_rules! seq_probe {
         let gets: Vec<U> = (0..n + 2)
             .map(|k| U::res(caught(|| <$R>::probe(it.get(k)))))
             .collect();
+        // positions just below usize::MAX: an accessor whose bounds arithmetic wraps would accept them
+        let far: Vec<U> = (0..6usize)
+            .map(|j| U::res(caught(|| <$R>::probe(it.get(usize::MAX - j)))))
+            .collect();
         let ps: Vec<U> = it.iter().map(|x| <$R>::probe(x)).collect();
         let o = it.into_owned();
         U::L(vec![
             U::nat(n),
             U::bool(e),
             U::L(gets),
+            U::L(far),
             U::L(ps),
             U::L(o.iter().map(|x| <$R>::to_u(x)).collect()),
         ])
